@@ -16,6 +16,8 @@ from pathlib import Path
 
 VERIF = Path(__file__).resolve().parent.parent
 CHECKS = [f"C{i:02d}" for i in range(1, 21) if i != 13]
+if __import__("os").environ.get("REFACTOR_RUN_CHECKS"):
+    CHECKS = __import__("os").environ["REFACTOR_RUN_CHECKS"].split(",")  # a sub-set of the checks (after a change to those engines only)
 
 
 def one(d, own):
